@@ -1,4 +1,4 @@
-ENTRY = {'modules': ['VirtioVerif.Props.C08'],
+ENTRY = {'modules': ['VirtioVerif.Props.C08', 'VirtioVerif.Props.C08Queue'],
  'assumptions': ['constructor skeletons (statement order, flag arguments, `?`), struct field orders and Drop '
                  'bodies of the eleven drivers are regenerated from the source text by tools/extract.py on '
                  'every run; SUPPORTED_FEATURES and queue (index, size) pairs by `vh features` (all 64 bits '
